@@ -485,6 +485,22 @@ func init() {
 		}
 		return s.ctx.Floor(x)
 	})
+	reg("math.Trunc", func(s *State, fn *ssa.Function, a []Value) Value {
+		x := a[0].(*Term)
+		if s.eng.cfg.Domain == DomainB {
+			if x.IsConst() {
+				return s.ctx.BVConst(math.Float64bits(math.Trunc(math.Float64frombits(x.U))), 64)
+			}
+			s.run.ufOps++
+			return s.ctx.UF("f64.trunc", BV(64), x)
+		}
+		c := s.ctx
+		if x.Sort.K == KInt {
+			return x
+		}
+		neg := c.Lt(x, c.RealConst(new(big.Rat)))
+		return c.Ite(neg, c.Neg(c.Floor(c.Neg(x))), c.Floor(x))
+	})
 	reg("math.Hypot", func(s *State, fn *ssa.Function, a []Value) Value {
 		x, y := a[0].(*Term), a[1].(*Term)
 		if s.eng.cfg.Domain == DomainB {
